@@ -38,8 +38,7 @@ def correspond(ctx: Ctx) -> Result:
     res = Result(rule=RULE)
     rng = ctx.rng
     coq, meta = [], []
-    for i in range(ctx.n(6, 30)):
-        wl = cc.make_workload(rng)
+    for i, wl in enumerate(cc.workloads(rng, ctx.n(6, 30))):
         for mode in ("sync", "async"):
             root = ctx.scratch("ref")
             ref = cc.run_take(wl, os.path.join(root, "snap"), mode, "fifo")
